@@ -1,5 +1,5 @@
 \* spec mutation "offByOne": TLC must violate Inv_C07_ConsolidatableJustified
-CONSTANTS MaxNow = 24  MaxLen = 12  Dedupe = 10  WeakC = "offByOne"
+CONSTANTS MaxNow = 80  MaxLen = 9  MaxEdits = 2  Dedupe = 10  VD = 15  WeakC = "offByOne"
 SPECIFICATION Spec
 VIEW view
 INVARIANTS Inv_C07_ConsolidatableJustified
